@@ -29,6 +29,7 @@ CLAIMED = {
     'C10': ('struct', 'deterministic simulation: live-set bookkeeping over the event log, published composite vs store vs model, restart differential at quiescent points', '5/C10'),
     'C11': ('struct', 'deterministic simulation: divider laws checked at every division of a seeded history (both outcomes of the random dividers), daughter independence via the frame condition', '5/C11'),
     'C13': ('parallel', 'deterministic simulation: real ParallelProcess/_handle_parallel_process over a simulated pipe+worker transport with a seeded scheduler; serial/parallel differential, protocol and shutdown oracles over the transport log, seeded stop points', '5/C13'),
+    'C19': ('timeline', 'deterministic simulation: the real TimelineProcess under seeded timelines, timesteps and driver interrupts; timer model over the recorded updates and emitted rows', '5/C19'),
     'C12': ('kernel', 'deterministic simulation: recording emitter vs state snapshots and batch times; emit_step differential', '5/C12'),
 }
 
